@@ -25,6 +25,8 @@ def h10(S, max_m=2, extra_max=2, queues=1, max_limit=3, dmax_us=2000, zero=False
         d = [S.real(f"d{i}", 0, dmax, lo_strict=True) for i in range(B)]
     S.tag("M", M)
     S.tag("backlog", B)
+    # the first execution may end with an error *after* the actor ran (a result was asked for and nobody stores results)
+    report_error = S.flag("first_job_fails_after_its_actor_ran") if backend == "mem" and queues == 1 and not zero else False
     started = []
     out = {}
     qnames = ["q%d" % i for i in range(queues)]
@@ -45,7 +47,7 @@ def h10(S, max_m=2, extra_max=2, queues=1, max_limit=3, dmax_us=2000, zero=False
         for i in range(B):
             qn = qnames[i % queues]
             key, _, params = await Job("job_" + qn, queue=qn, args={"i": i}, id_=f"m{i}", retries=1,
-                                       _connection=w.conn).enqueue()
+                                       store_result=bool(report_error and i == 0), _connection=w.conn).enqueue()
             before[f"m{i}"] = params
         worker = Worker(routers=[r], handle_signals=[], _connection=w.conn, graceful_shutdown_time=1.0,
                         messages_limit=M, tasks_limit=limit)
